@@ -43,12 +43,12 @@ fvars == <<fl, bel, full, rs, arm, reopen>>
 avars == <<pc, att, errs, k0, ok, todo, early>>
 vars == <<pvars, fvars, avars, nenv, nfail>>
 
-A == INSTANCE Routes
+A == INSTANCE Routes WITH Tol <- "none"
 
 \* ---- the universe ------------------------------------------------------------------------------------
 TheCfg == [ipv |-> 4, table |-> 254, defProto |-> 3, devSrc |-> "", wl |-> {"cali1", "cali2"},
            special |-> {"vxlan.calico"}, ipip |-> "tunl0", removeExt |-> RemoveExt, ownBird |-> FALSE,
-           allProtos |-> {3, 80}, exclusive |-> {80}]
+           allProtos |-> {3, 80}, exclusive |-> {80}, ct |-> CT]
 K1 == IF CT THEN "10.0.1.0/26" ELSE "10.0.0.1/32"
 K2 == "10.0.0.2/32"
 Dsts == IF TwoKeys THEN {K1, K2} ELSE {K1}
@@ -151,12 +151,12 @@ ILink(n) ==
     /\ LET L == A!LinkOf(links, n) IN
        \/ /\ L # {}
           /\ LET l == CHOOSE l \in L : TRUE IN
-             \/ A!EnvLink(n, (links \ {l}) \cup {[l EXCEPT !.up = ~l.up]}, IF l.up THEN Flush(kernel, l.idx) ELSE kernel)
-             \/ A!EnvLink(n, links \ {l}, Flush(kernel, l.idx))
+             \/ A!EnvLink(n, (links \ {l}) \cup {[l EXCEPT !.up = ~l.up]}, IF l.up THEN Flush(kernel, l.idx) ELSE kernel, FALSE)
+             \/ A!EnvLink(n, links \ {l}, Flush(kernel, l.idx), FALSE)
              \/ /\ NextIdx(n) # 0
-                /\ A!EnvLink(n, (links \ {l}) \cup {[name |-> n, idx |-> NextIdx(n), up |-> TRUE]}, Flush(kernel, l.idx))
+                /\ A!EnvLink(n, (links \ {l}) \cup {[name |-> n, idx |-> NextIdx(n), up |-> TRUE]}, Flush(kernel, l.idx), FALSE)
        \/ /\ L = {} /\ NextIdx(n) # 0
-          /\ A!EnvLink(n, links \cup {[name |-> n, idx |-> NextIdx(n), up |-> TRUE]}, kernel)
+          /\ A!EnvLink(n, links \cup {[name |-> n, idx |-> NextIdx(n), up |-> TRUE]}, kernel, FALSE)
     /\ UNCHANGED <<fvars, nfail>> /\ NoApply
 
 \* ---- Apply ---------------------------------------------------------------------------------------------------------
